@@ -1,32 +1,49 @@
 SPEC = dict(
     props_file="C15",
-    legs=[dict(family="tdigest", focus="c15", oracles=["c15_ok"], tie_oracles=["tie_ok"], profiles=["debug", "release"],
+    legs=[dict(family="tdigest", focus="c15", oracles=["c15_ok", "acc_ok"], tie_oracles=["tie_ok"], profiles=["debug", "release"],
                mask=[0, 1, 7, 8, 9, 10, 14, 15, 17], n_quick=80, n_thorough=160)],
     level_text="STRUCTURAL HALF ONLY. Theorems (Props/C15.v): do_merge is modelled as the relation merge_rel that every "
                "decision sequence of the pass satisfies (output = partition of the stably sorted input into contiguous "
                "non-empty groups, first and last group singletons, each output centroid = summed weight and exact weighted "
                "mean of its group); from it: weights are preserved, output means are sorted and inside the input's range, "
                "the first/last output centroid is a minimal/maximal input element; for every in-process history "
-               "(update / compress / merge trees) centroid weights + buffered values = total_weight, means sorted and "
-               "inside [min,max], first mean = min and last mean = max once compressed, buffer <= 4*(2k+fudge). The boolean "
-               "checker valid_merge is proved sound for the relation. Tie (translation validation): after every real "
-               "compression (dump, peek before each query, merge, freeze) the harness hands (previous centroids + buffered "
-               "values, new centroids) to the extracted valid_merge (group means compared with the exact rational group "
-               "means at 1e-9), and the structural claims are evaluated on every centroid dump of the crate (c15_ok), in "
-               "debug and release builds, for k 10..500 and streams of every shape, merge trees, freeze/unfreeze, round trips.",
-    level_note="NO THEOREM for (i) 'never more than 2k+30 centroids' (a consequence of the real-analytic shape of the k2 scale "
-               "function q(1-q)*(4 ln(n/2k)+24)/(2k); the merge decisions depend on ln and are not recomputed in Coq) and "
-               "(ii) the rank error against the empirical distribution (data-dependent). Both are MEASURED as labelled tests "
-               "only: the oracle c15_ok fails a run whose in-process digest holds more than 2k+30 centroids or whose "
-               "first/last centroid is not a unit-weight centroid sitting on min/max, and tools/families/tdigest.py records "
-               "max centroids/(2k+30) and max |rank - empirical rank| (absolute and in units of q(1-q)/k) in "
-               "evidence/measured/C15-tdigest-measured-tests.json, labelled 'test, not proof'. 'Unit-weight extremes' is an observed fact "
-               "(it depends on the stability of the sort on ties); the theorem proved is 'first/last MEAN = min/max'. The "
-               "theorems are over exact rationals: binary64 rounding of the group means is compared at 1e-9, not proved.",
+               "(update / compress / merge trees from new(k); histories started from a decoded image keep sortedness and range, "
+               "Props/C10.v) centroid weights + buffered values = total_weight, means sorted and inside [min,max], first mean = "
+               "min and last mean = max once compressed, buffer <= 4*(2k+fudge). The boolean checker valid_merge is proved sound "
+               "for the relation. Tie (translation validation): after every real compression (dump, peek before each query, "
+               "merge, freeze) the harness hands (previous centroids + buffered values, new centroids) to the extracted "
+               "valid_merge (group means compared with the exact rational group means at 1e-9), and the structural claims are "
+               "evaluated on every centroid dump of the crate (c15_ok), in debug and release builds, for k 10..500 (and 32768.."
+               "65535), streams of every shape incl. finite values of both signs next to f64::MAX with k 10..20 and n >= 1000 "
+               "(Centroid::add's overflow fallback) and heavily repeated values, merge trees, freeze/unfreeze, round trips.",
+    level_note="NO THEOREM for the analytic half: (i) 'never more than 2k+30 centroids' and (ii) accuracy. Both are LABELLED "
+               "TESTS with a pass/fail threshold, evaluated by extracted Coq oracles on the crate's observations; the constants "
+               "are calibrated on the unchanged crate, they detect regressions and prove nothing. (i) c15_ok fails a run whose "
+               "in-process digest holds more than 2k+30 centroids (measured worst 0.56 of the bound) or whose first/last "
+               "centroid is not a unit-weight centroid on min/max. (ii) acc_ok (Corr/TDigest.v): (B) on every dump of an "
+               "in-process digest every centroid of weight w >= 2 satisfies w - 1 <= 2 * n * max(q0(1-q0), q2(1-q2)) * Z/(2k), "
+               "Z = 4 ln(n/2k) + 24, i.e. twice the k2 scale-function limit the merge pass enforces at merge time, k = the "
+               "smallest compression that contributed (measured worst ratio 1.00 against the threshold 2; the seeded 'equal "
+               "means always merge' gives 2300); (A) on every rank query of a never-merged in-process digest whose values are "
+               "all known, |rank(v) - exact empirical mid-rank| <= 1/(2n) + 4 * S/n, S = weight of the centroids around v (two "
+               "below, those at v, two above) (measured worst ratio 0.35 quick / 1.76 thorough against the threshold 4). "
+               "Together: rank error <= 1/(2n) + 4 * (at most 4 + ties clusters) each <= 1 + 2 n q(1-q) Z/(2k). What the test "
+               "does NOT show, and the measurement contradicts any stronger reading: there is no a-priori bound c*q(1-q)/k on "
+               "the ABSOLUTE rank error for arbitrary data -- measured worst |rank - empirical rank| = 0.63 (k = 10, n = 60000, "
+               "magnitudes log-uniform over 2^+-300: linear interpolation between two clusters holding 30 % of the weight "
+               "each), 0.47 after merging digests of different k (k = 10 side dominates); for k near 10 the scale-function "
+               "limit exceeds the total weight and checks nothing. After a merge with a coarser digest clusters overlap and (A) "
+               "is recorded only (worst ratio 12.5). The worst cases of every run are written to evidence/measured/"
+               "C15-tdigest-measured-tests.json next to the thresholds, labelled 'test, not proof'. 'Unit-weight extremes' is an "
+               "observed fact (it depends on the stability of the sort on ties); the theorem proved is 'first/last MEAN = "
+               "min/max'. The theorems are over exact rationals and the exact relation merge_rel 0: binary64 rounding of the "
+               "group means is compared at 1e-9, not proved.",
     technique="Coq: relational model of the merge pass + proved-sound checker (translation validation of every real pass) + "
-              "invariant over in-process histories; differential correspondence; measured tests for the analytic half",
+              "invariant over in-process histories; differential correspondence; labelled threshold tests (extracted Coq "
+              "oracles, no theorem) for the analytic half",
     trusted=["slice::sort_by is a stable sort (std; modelled by a stable merge sort whose output is proved a sorted permutation)",
              "the extracted valid_merge sees the crate's centroids through serialize() (exact bit patterns -> exact rationals)",
-             "the 2k+30 bound and the rank-error claims are measured, not proved (DESIGN.md section 9)"],
+             "the 2k+30 bound, the cluster-size bound and the rank-error bound are threshold tests with calibrated constants, not "
+             "proved (DESIGN.md section 9)"],
     assumptions=["finite f64 values; total weight below 2^53"],
 )
